@@ -10,3 +10,5 @@ import AM.Model.Fanout
 import AM.Model.Trunc
 import AM.Model.TemplateData
 import AM.Props.C20
+import AM.Model.Gossip
+import AM.Props.C19
